@@ -210,17 +210,23 @@ def rehookException (fx : Fix) (s : Sh) (fa : Nat) : Sh :=
 def mkEnt (loc ip child : Nat) (plt : Bool) (depth : Nat) : Ent :=
   { c := ⟨loc, ip, child, plt, false, false⟩, depth := depth, written := false, jb := 0 }
 
+/-- the part common to both entry hooks: fill the next rstack slot, hijack the return
+    address, mcount_auto_restore, mcount_entry_filter_record (record_idx++) -/
+def pushHook (s : Sh) (loc child : Nat) (plt : Bool) : Sh :=
+  let e := mkEnt loc (s.mem loc) child plt s.recIdx
+  let s2 := autoRestore { s with rs := e :: s.rs, mem := upd s.mem loc (hv plt) }
+  { s2 with recIdx := s2.recIdx + 1 }
+
+/-- `if (mtdp->in_exception) { mcount_rstack_rehook_exception(mtdp, fa); in_exception = false; }` -/
+def excPre (fx : Fix) (s : Sh) (fa : Nat) : Sh := { rehookException fx s fa with inExc := false }
+
+/-- the frame address __mcount_entry uses: parent_loc[-1] with its "basic sanity check" -/
+def entryFrameAddr (fx : Fix) (s : Sh) (loc : Nat) : Nat :=
+  if s.mem (loc - 1) < loc then (if fx.excFrame then loc else loc - 1) else s.mem (loc - 1)
+
 /-- __mcount_entry(parent_loc = loc, child); `mem (loc-1)` is parent_loc[-1] -/
 def mcountEntry (fx : Fix) (s : Sh) (loc child : Nat) : Sh :=
-  let s1 :=
-    if s.inExc then
-      let fa0 := s.mem (loc - 1)
-      let fa := if fa0 < loc then (if fx.excFrame then loc else loc - 1) else fa0
-      { rehookException fx s fa with inExc := false }
-    else s
-  let e := mkEnt loc (s1.mem loc) child false s1.recIdx
-  let s2 := autoRestore { s1 with rs := e :: s1.rs, mem := upd s1.mem loc TRAMP }
-  { s2 with recIdx := s2.recIdx + 1 }
+  pushHook (if s.inExc then excPre fx s (entryFrameAddr fx s loc) else s) loc child false
 
 /-- the common tail of __mcount_exit / __plthook_exit -/
 def exitTop (s : Sh) : Sh × Nat :=
@@ -283,22 +289,23 @@ def restoreVfork (s : Sh) : Sh :=
       else { s with dead := true }   -- stale array content: not modelled
     else s
 
+/-- the `if (unlikely(special_flag))` part of __plthook_entry after the flush -/
+def pltSpecial (fx : Fix) (s4 : Sh) (sym : Sym) (arg1 : Nat) : Sh :=
+  match sym with
+  | .setjmp => setupJmpbuf fx s4 arg1
+  | .longjmp => { s4 with rs := setTop s4.rs fun e => { e with c := { e.c with ljmp := true }, jb := arg1 } }
+  | .vfork => prepareVfork { s4 with rs := setTop s4.rs fun e => { e with c := { e.c with vfork := true } } }
+  | .except => { s4 with mem := restoreMem s4.rs s4.mem }
+  | _ => s4
+
 /-- __plthook_entry(ret_addr = loc, symbol, ARG1 = arg1) -/
 def plthookEntry (fx : Fix) (s : Sh) (loc child : Nat) (sym : Sym) (arg1 : Nat) : Sh :=
   if sym = .skip then s
   else
-    let s0 :=
-      if fx.excPlt && s.inExc && sym != .except then { rehookException fx s loc with inExc := false } else s
-    let e := mkEnt loc (s0.mem loc) child true s0.recIdx
-    let s2 := autoRestore { s0 with rs := e :: s0.rs, mem := upd s0.mem loc PTRAMP }
-    let s3 := { s2 with recIdx := s2.recIdx + 1 }
+    let s0 := if fx.excPlt && s.inExc && sym != .except then excPre fx s loc else s
+    let s3 := pushHook s0 loc child true
     let s4 := if sym.flushes then s3.record false else s3
-    match sym with
-    | .setjmp => setupJmpbuf fx s4 arg1
-    | .longjmp => { s4 with rs := setTop s4.rs fun e => { e with c := { e.c with ljmp := true }, jb := arg1 } }
-    | .vfork => prepareVfork { s4 with rs := setTop s4.rs fun e => { e with c := { e.c with vfork := true } } }
-    | .except => { s4 with mem := restoreMem s4.rs s4.mem }
-    | _ => s4
+    pltSpecial fx s4 sym arg1
 
 /-- __plthook_exit after the `again:` label has settled -/
 def plthookExitCore (s : Sh) : Sh × Nat :=
@@ -549,21 +556,24 @@ structure CSt where
 
 def CSt.init : CSt := { cur := 0, started := false, seen := fun _ => false, afterLj := false }
 
-def cstep (s : CSt) (r : RRec) : Option CSt :=
+/-- may `r` follow in state `s`? -/
+def cok (s : CSt) (r : RRec) : Bool :=
   if r.typ = 0 then
-    let cur := if s.started then s.cur else r.depth
-    if s.afterLj then none
-    else if r.depth ≠ cur then none
-    else some { cur := cur + 1, started := true,
-                seen := if r.kind = .setjmp then (fun d => if d = r.depth then true else s.seen d) else s.seen,
-                afterLj := r.kind = .longjmp }
+    !s.afterLj && (r.depth == (if s.started then s.cur else r.depth))
+  else if s.afterLj then
+    decide (r.depth < (if s.started then s.cur else r.depth + 1)) && s.seen r.depth
   else
-    let cur := if s.started then s.cur else r.depth + 1
-    if s.afterLj then
-      if r.depth < cur ∧ s.seen r.depth then some { s with cur := r.depth, started := true, afterLj := false }
-      else none
-    else if r.depth + 1 = cur then some { s with cur := r.depth, started := true }
-    else none
+    r.depth + 1 == (if s.started then s.cur else r.depth + 1)
+
+def cnext (s : CSt) (r : RRec) : CSt :=
+  if r.typ = 0 then
+    { cur := r.depth + 1, started := true,
+      seen := if r.kind = .setjmp then (fun d => if d = r.depth then true else s.seen d) else s.seen,
+      afterLj := decide (r.kind = .longjmp) }
+  else
+    { s with cur := r.depth, started := true, afterLj := false }
+
+def cstep (s : CSt) (r : RRec) : Option CSt := if cok s r then some (cnext s r) else none
 
 def coherent : CSt → List RRec → Bool
   | _, [] => true
